@@ -20,6 +20,9 @@ CHECKS = {
     "C12": ("pbt-values", "exhaustive comparison with an independent sieve below 2^26/2^30, adversarial 64-bit input families selected by independent code vs deterministic Miller-Rabin, rapidcheck triples for the modular helpers vs unsigned __int128, Hypothesis-generated static_asserts on mag<N>() vs sympy factorisations; libFuzzer target in the thorough tier",
             "Exploration: exhaustive for all n below the bound, structured adversarial sets (pseudoprime families, Carmichael numbers, squares, semiprimes near 2^16/2^31/2^32, neighbours of 2^k) and random 64-bit operands beyond it. Inputs confined to a tiny region that is not one of these structures (e.g. a spurious wrap in is_perfect_square) are out of reach.",
             "trusts the deterministic 7-base Miller-Rabin oracle, unsigned __int128 arithmetic and sympy.factorint", "4/C12"),
+    "C13": ("pbt-values", "generated programs: memcmp round trip over all 8/16-bit values and float bit patterns, all 8x8-bit operand pairs and rapidcheck/special grids for wider reps, result type pinned by static_assert against the raw operator, accepted by all six configurations; layout facts as static_assert grids over units x reps (Hypothesis-generated compound units)",
+            "Exploration: exhaustive where the domain is small (8-bit operand pairs, 16-bit values, 2^32 float patterns in the thorough tier), structured specials + random draws otherwise; one known finding (F5) is excluded by construction and re-checked by a pinned reproducer.",
+            "trusts the raw operators compiled by the same compiler as oracle; NaN results compared as both-NaN", "4/C13"),
 }
 ENGINES = [
     {"name": "pbt-programs", "path": "auverif/hyp.py", "kind_free_text": "Hypothesis-generated translation units judged by compiler verdict / static_assert / program output against an independent Python model",
